@@ -29,6 +29,19 @@ def load_findings(ctx, name):
     return out
 
 
+def lockprog(ctx):
+    """The acquire/release sequence of single calls run alone equals the table of Conc/LockProg.v (OrefaFS and MemFS
+    Rename, OrefaFS Mkdir/OpenFile/Remove/Link): a changed locking protocol of one of these calls shows here even
+    when no explored schedule misbehaves.  Returns False when the stream could not be run."""
+    mm = overlay.stream(ctx, "lockprog", "lockprog", "lockprog")
+    if mm is None:
+        return False
+    for (i, c, m, o) in mm[:2]:
+        ctx.violation("lockprog", "the acquire/release sequence of a call run alone differs from its entry in the lock-program table of Conc/LockProg.v (%d entries differ): the locking protocol of that call changed" % len(mm),
+                      {"conc_stream": {"name": "lockprog", "harness": "lockprog", "driver": "lockprog", "overlay": True}, "engine": "conc-lockprog", "case": c, "model": m, "observed": o})
+    return True
+
+
 def run(ctx, kinds):
     """kinds: the finding kinds this property is responsible for."""
     kf_by_id = {k["id"]: k for k in ctx.kf}
